@@ -102,6 +102,70 @@ class Backend:
             return _classify(e)
 
 
+def scans_during_a_transition(ctx: Ctx) -> None:
+    """an accepted transition of the in-memory orchestrator, paused after each of its source lines, while another thread runs the
+    READ-side scans to completion (the recovery scans, the status-filtered listing, the count, the concurrency lookup) - and the other
+    way round.  Afterwards the invocation is observable under exactly its recorded status: a scan moves nothing."""
+    from pynenc.invocation.status import InvocationStatus as S
+    from pynenc.orchestrator.mem_orchestrator import MemOrchestrator
+
+    from harness.sched_line import DeferredThreads, LineSched
+    from harness.sched_sql import PrefixChooser
+
+    defer = DeferredThreads().install()
+    sched = LineSched(line_targets=[MemOrchestrator], lock_modules=["pynenc.orchestrator.mem_orchestrator"], max_steps=20000).install()
+    n = 0
+    try:
+        b = Backend("mem", ctx)
+        for start, owner, req, rid in ((S.REGISTERED, None, S.PENDING, "rA"), (S.PENDING, "rA", S.RUNNING, "rA"), (S.RUNNING, "rA", S.SUCCESS, "rA"),
+                                       (S.RETRY, None, S.PENDING, "rB"), (S.PENDING, "rA", S.PENDING_RECOVERY, "rR")):
+            def run_one(chooser, start=start, owner=owner, req=req, rid=rid):
+                inv = b.new_inv()
+                inject_status(b.app, inv, start, owner, 0)
+                out: dict = {}
+
+                def change() -> None:
+                    out["set"] = b.set(inv, req, rid)
+
+                def scans() -> None:
+                    o = b.o
+                    try:
+                        out["pending"] = list(o.get_pending_invocations_for_recovery())
+                        out["running"] = list(o.get_running_invocations_for_recovery())
+                        out["count"] = o.count_invocations(statuses=[start, req])
+                        out["listed"] = b.listed(inv)
+                        out["existing"] = list(o.get_existing_invocations(b.task, statuses=[start, req]))
+                    except BaseException as e:  # noqa: BLE001
+                        out["scan-error"] = f"{type(e).__name__}: {str(e)[:120]}"
+
+                run = sched.run([change, scans], chooser)
+                defer.flush()
+                run.meta = (inv, out, b.read(inv), b.listed(inv))  # type: ignore[attr-defined]
+                return run
+
+            n0 = len([c for c in run_one(PrefixChooser([0] * 5000)).choices if c == 0])
+            n1 = len([c for c in run_one(PrefixChooser([1] * 5000)).choices if c == 1])
+            plans = [[0] * k + [1] * 5000 for k in range(n0 + 1)] + [[1] * k + [0] * 5000 for k in range(0, n1 + 1, 1 if not ctx.quick else max(1, n1 // 25))]
+            for plan in plans:
+                run = run_one(PrefixChooser(plan))
+                n += 1
+                ctx.count()
+                inv, out, rec, ls = run.meta  # type: ignore[attr-defined]
+                ctx.distinct(("mem", "scan-vs-transition", start.value, req.value, tuple(run.choices[:60])))
+                rep = {"kind": "scan-vs-transition", "backend": "mem", "start": start.value, "request": req.value, "schedule": run.choices[:80]}
+                if run.aborted or any(e is not None for e in run.errors) or "scan-error" in out:
+                    ctx.report("scan-vs-transition:error[mem]", f"[mem] {start.value} -> {req.value} beside the read-side scans: aborted={run.aborted} errors={run.errors} {out.get('scan-error')}", rep)
+                    continue
+                if out.get("set") != "ok" or rec is None or rec[0] != req.value or ls != [rec[0]]:
+                    ctx.report(f"status-listing-disagrees-with-record[mem]:scan-during-transition",
+                               f"[mem] the accepted change {start.value} -> {req.value} (answer {out.get('set')}) ran beside the read-side scans of another thread (recovery scans, listing, "
+                               f"count, concurrency lookup): afterwards the record says {rec and rec[0]} and the status-filtered listing shows the invocation under {ls}", rep)
+    finally:
+        sched.uninstall()
+        defer.uninstall()
+    ctx.notes["scan_vs_transition_schedules"] = n
+
+
 def run(ctx: Ctx) -> None:
     from pynenc.invocation.status import InvocationStatus as S, InvocationStatusRecord, status_record_transition
 
@@ -169,6 +233,8 @@ def run(ctx: Ctx) -> None:
                             t0 = clock.us
                             inject_status(b.app, inv, cur, owner, t0)
                             clock.advance(1000)
+                            if len(res) % 11 == 6:
+                                clock.advance(3_600_000_000)   # the record is an HOUR old when it is read and the request arrives (far beyond every timeout): reading moves nothing
                             if len(res) % 5 == 3:
                                 clock.advance(-5_001_000)      # the requester's clock is 5 s BEHIND the stored timestamp (hosts with skewed clocks, an NTP step back)
                             before = b.read(inv)
@@ -320,6 +386,7 @@ def run(ctx: Ctx) -> None:
     finally:
         clock.uninstall()
         drv.close()
+    scans_during_a_transition(ctx)
     ctx.cov["exhaustive"] = True
     ctx.assumptions += [
         "states not reachable with a chosen owner by public calls are injected into the backend's store (flagged injected); 13 statuses are also driven by public calls",
